@@ -65,9 +65,21 @@ def discover_mutable_fields():
         return out
 
     def snap():
-        return [{k: v for k, v in vars(o).items()
-                 if not isinstance(v, S.SLock) and not hasattr(v, "__dict__")}
+        # (value, in-place content) per attribute; objects are compared by
+        # identity (a field that is rebound to another object - a thread, a
+        # record - is mutable although the objects themselves compare equal
+        # or are not comparable), containers also by content
+        return [{k: (v, repr(v) if isinstance(v, (list, dict, set, bytearray))
+                     else None)
+                 for k, v in vars(o).items() if not isinstance(v, S.SLock)}
                 for o in objs()]
+
+    def differs(a, b):
+        if a is None or b is None:
+            return True
+        if _is_plain(a[0]) and _is_plain(b[0]):
+            return a[0] != b[0]
+        return a[0] is not b[0] or a[1] != b[1]
 
     names = set()
     before = snap()
@@ -77,10 +89,40 @@ def discover_mutable_fields():
         after = snap()
         for b, a in zip(before, after):
             for k in set(a) | set(b):
-                if a.get(k) != b.get(k):
+                if differs(a.get(k), b.get(k)):
                     names.add(k)
         before = after
     return sorted(names)
+
+
+_PLAIN = (int, bool, str, tuple, type(None), float, bytes)
+
+
+def _is_plain(x):
+    return type(x) in _PLAIN
+
+
+def canon_value(sc, x, depth=0):
+    """address-free canonical form of a lock attribute for the state key:
+    plain values as they are, thread objects as the index of the scheduled
+    thread, containers element-wise, anything else by type name"""
+    import threading as _t
+    if type(x) in (int, bool, str, type(None), float, bytes):
+        return x
+    if isinstance(x, _t.Thread):
+        return ("thread", sc.ident.get(x.ident, "other"))
+    if depth < 3:
+        if isinstance(x, (tuple, list)):
+            return (type(x).__name__,) + tuple(canon_value(sc, y, depth + 1)
+                                               for y in x)
+        if isinstance(x, (set, frozenset)):
+            return ("set",) + tuple(sorted(
+                repr(canon_value(sc, y, depth + 1)) for y in x))
+        if isinstance(x, dict):
+            return ("dict",) + tuple(sorted(
+                (repr(canon_value(sc, k, depth + 1)),
+                 repr(canon_value(sc, v, depth + 1))) for k, v in x.items()))
+    return ("object", type(x).__name__)
 
 
 class Harness(object):
@@ -105,10 +147,15 @@ class Harness(object):
                 if hasattr(v, "__dict__") and not isinstance(v, S.SLock)]
         subs.append(vars(lock))
 
+        sub_ids = set(id(d_) for d_ in subs)
+
         def counters():
-            return tuple(tuple((k, x) for k, x in d.items()
-                               if type(x) in (int, bool, str, tuple,
-                                              type(None), float))
+            # every attribute except the mutexes (their state is in the lock
+            # bits) and the sub-objects (listed themselves), address-free
+            return tuple(tuple((k, canon_value(sc, x)) for k, x in d.items()
+                               if not isinstance(x, S.SLock)
+                               and id(getattr(x, "__dict__", None))
+                               not in sub_ids)
                          for d in subs)
 
         def state_fn(s, label):
